@@ -1329,6 +1329,13 @@ def simplify(o):
         return o[1]
     if o[0] == "field" and isinstance(o[1], tuple) and o[1] and o[1][0] == "agg" and o[1][1][0] in ("adt", "tuple") and isinstance(o[2], int) and o[2] < len(o[1][2]):
         return o[1][2][o[2]]
+    # `Ok(x)?` / `Some(x)?` on a literal: the payload
+    if o[0] == "field" and o[2] == 0 and isinstance(o[1], tuple) and o[1] and o[1][0] == "downcast" and o[1][3] == "Continue":
+        x = o[1][1]
+        if isinstance(x, tuple) and x and x[0] == "call" and (x[1] or "").endswith("ops::try_trait::Try::branch") and len(x[3]) == 1:
+            a = x[3][0]
+            if isinstance(a, tuple) and a and a[0] == "agg" and a[1][0] == "adt" and a[1][3] in ("Ok", "Some") and len(a[2]) == 1:
+                return a[2][0]
     return o
 
 
@@ -1592,6 +1599,18 @@ def expand_adaptors(body, depth=3):
             arms = None
             kind = None
             clo_idx = None
+            if re.search(r"Option::<T>::ok_or$", name) and aty.startswith(OPT) and len(t["args"]) == 2:
+                # Option<T> -> Result<T, E> with an already built error value
+                dl = new_local("isize")
+                b_none, b_some, b_unr = len(blocks), len(blocks) + 1, len(blocks) + 2
+                dest, target = t["dest"], t["target"]
+                blocks[bi]["stmts"].append(assign({"l": dl, "p": []}, {"k": "discr", "place": {"l": recv["l"], "p": []}, "of": aty}))
+                blocks[bi]["term"] = {"k": "switch", "discr": {"move": {"l": dl, "p": []}}, "dty": "isize", "targets": [["0", b_none], ["1", b_some]], "otherwise": b_unr, "line": line, "exp": False}
+                blocks.append({"stmts": [assign(dest, _agg(RES, 1, "Err", [t["args"][1]]))], "term": {"k": "goto", "target": target, "line": line}, "cleanup": False})
+                blocks.append({"stmts": [assign(dest, _agg(RES, 0, "Ok", [payload(1, "Some")]))], "term": {"k": "goto", "target": target, "line": line}, "cleanup": False})
+                blocks.append({"stmts": [], "term": {"k": "unreachable", "line": line}, "cleanup": False})
+                did = True
+                break
             if re.search(r"Result::<T, E>::(ok|err)$", name) and aty.startswith(RES):
                 # Result<T, E> -> Option<T> (ok) / Option<E> (err): a two-arm match without a closure
                 which = name.rsplit("::", 1)[1]
